@@ -37,8 +37,8 @@ FpLegendre(p, a) == IF NIsZero(a) THEN 0
                     ELSE IF FpPow(p, a, FpHalfOrder(p)) = NOne THEN 1 ELSE -1
 
 ----------------------------------------------------------------------------
-RECURSIVE TZero(_, _), TOne(_, _), TIsZero(_, _, _), TAdd(_, _, _, _), TSub(_, _, _, _),
-          TNeg(_, _, _), TMul(_, _, _, _), TMulGen(_, _, _, _), TInv(_, _, _), TNormDown(_, _, _),
+RECURSIVE TZero(_, _), TOne(_, _), TIsZero(_, _, _), TAddD(_, _, _, _), TSubD(_, _, _, _),
+          TNegD(_, _, _), TMulD(_, _, _, _), TMulGenD(_, _, _, _), TInvD(_, _, _), TNormDownD(_, _, _),
           TFromPrime(_, _, _), TFlatten(_, _, _), TIsElem(_, _, _), TMulPrime(_, _, _, _)
 
 TZero(F, k) == IF k = 0 THEN NZero ELSE Mk(Deg(F, k), LAMBDA i : TZero(F, k-1))
@@ -49,36 +49,36 @@ TIsElem(F, k, a) == IF k = 0 THEN NIsNum(a) /\ NLt(a, F.p)
                     ELSE /\ DOMAIN a = 1..Deg(F, k)
                          /\ \A i \in 1..Deg(F, k) : TIsElem(F, k-1, a[i])
 
-TAdd(F, k, a, b) == IF k = 0 THEN FpAdd(F.p, a, b)
-                    ELSE Mk(Deg(F, k), LAMBDA i : TAdd(F, k-1, a[i], b[i]))
-TSub(F, k, a, b) == IF k = 0 THEN FpSub(F.p, a, b)
-                    ELSE Mk(Deg(F, k), LAMBDA i : TSub(F, k-1, a[i], b[i]))
-TNeg(F, k, a)    == IF k = 0 THEN FpNeg(F.p, a)
-                    ELSE Mk(Deg(F, k), LAMBDA i : TNeg(F, k-1, a[i]))
-TDbl(F, k, a)    == TAdd(F, k, a, a)
+TAddD(F, k, a, b) == IF k = 0 THEN FpAdd(F.p, a, b)
+                    ELSE Mk(Deg(F, k), LAMBDA i : TAddD(F, k-1, a[i], b[i]))
+TSubD(F, k, a, b) == IF k = 0 THEN FpSub(F.p, a, b)
+                    ELSE Mk(Deg(F, k), LAMBDA i : TSubD(F, k-1, a[i], b[i]))
+TNegD(F, k, a)    == IF k = 0 THEN FpNeg(F.p, a)
+                    ELSE Mk(Deg(F, k), LAMBDA i : TNegD(F, k-1, a[i]))
+TDblD(F, k, a)    == TAddD(F, k, a, a)
 
 \* schoolbook product in F_{k-1}[X], then X^d = nr
-RECURSIVE TConv(_, _, _, _, _, _)
+RECURSIVE TConvD(_, _, _, _, _, _)
 \* sum_{i >= i0} a_i * b_{m-i}  (0-based coefficient indices, both below d)
-TConv(F, k, a, b, m, i) ==
+TConvD(F, k, a, b, m, i) ==
     LET d == Deg(F, k) IN
     IF i > d - 1 \/ i > m THEN TZero(F, k-1)
-    ELSE IF m - i > d - 1 THEN TConv(F, k, a, b, m, i + 1)
-    ELSE TAdd(F, k-1, TMul(F, k-1, a[i+1], b[m-i+1]), TConv(F, k, a, b, m, i + 1))
+    ELSE IF m - i > d - 1 THEN TConvD(F, k, a, b, m, i + 1)
+    ELSE TAddD(F, k-1, TMulD(F, k-1, a[i+1], b[m-i+1]), TConvD(F, k, a, b, m, i + 1))
 \* The generic schoolbook product (any degree) is TMulGen; for degrees 2 and 3 the same sums
 \* are written out (TLC evaluates them several times faster); MC_Field checks TMul = TMulGen.
-TMulGen(F, k, a, b) ==
+TMulGenD(F, k, a, b) ==
     IF k = 0 THEN FpMul(F.p, a, b)
     ELSE LET d == Deg(F, k)
-             c(m) == TConv(F, k, a, b, m, 0)      \* coefficient of X^m, m = 0 .. 2d-2
+             c(m) == TConvD(F, k, a, b, m, 0)      \* coefficient of X^m, m = 0 .. 2d-2
          IN  Mk(d, LAMBDA m :
                  IF m - 1 + d <= 2*d - 2
-                 THEN TAdd(F, k-1, c(m-1), TMul(F, k-1, NR(F, k), c(m-1+d)))
+                 THEN TAddD(F, k-1, c(m-1), TMulD(F, k-1, NR(F, k), c(m-1+d)))
                  ELSE c(m-1))
-TMul(F, k, a, b) ==
+TMulD(F, k, a, b) ==
     IF k = 0 THEN FpMul(F.p, a, b)
-    ELSE LET M(x, y) == TMul(F, k-1, x, y)
-             A(x, y) == TAdd(F, k-1, x, y)
+    ELSE LET M(x, y) == TMulD(F, k-1, x, y)
+             A(x, y) == TAddD(F, k-1, x, y)
              nr == NR(F, k)
          IN  IF Deg(F, k) = 2
              THEN \* (a1 + a2 X)(b1 + b2 X) = a1 b1 + nr a2 b2 + (a1 b2 + a2 b1) X
@@ -88,14 +88,14 @@ TMul(F, k, a, b) ==
              THEN <<A(M(a[1], b[1]), M(nr, A(M(a[2], b[3]), M(a[3], b[2])))),
                     A(A(M(a[1], b[2]), M(a[2], b[1])), M(nr, M(a[3], b[3]))),
                     A(A(M(a[1], b[3]), M(a[2], b[2])), M(a[3], b[1]))>>
-             ELSE TMulGen(F, k, a, b)
-TSqr(F, k, a) == TMul(F, k, a, a)
+             ELSE TMulGenD(F, k, a, b)
+TSqrD(F, k, a) == TMulD(F, k, a, a)
 
 \* multiply an element of level k by an element of the prime field / of level j <= k
 TMulPrime(F, k, a, s) == IF k = 0 THEN FpMul(F.p, a, s)
                          ELSE Mk(Deg(F, k), LAMBDA i : TMulPrime(F, k-1, a[i], s))
 RECURSIVE TMulLevel(_, _, _, _, _)
-TMulLevel(F, k, a, j, s) == IF k = j THEN TMul(F, k, a, s)
+TMulLevel(F, k, a, j, s) == IF k = j THEN TMulD(F, k, a, s)
                             ELSE Mk(Deg(F, k), LAMBDA i : TMulLevel(F, k-1, a[i], j, s))
 
 \* embeddings
@@ -107,10 +107,10 @@ TFromLevel(F, k, j, s) == IF k = j THEN s
 
 \* norm from level k down to level k-1 (product of the conjugates over F_{k-1})
 \* d = 2:  a0^2 - nr a1^2        d = 3:  a0^3 + nr a1^3 + nr^2 a2^3 - 3 nr a0 a1 a2
-TNormDown(F, k, a) ==
-    LET M(x, y) == TMul(F, k-1, x, y)
-        A(x, y) == TAdd(F, k-1, x, y)
-        S(x, y) == TSub(F, k-1, x, y)
+TNormDownD(F, k, a) ==
+    LET M(x, y) == TMulD(F, k-1, x, y)
+        A(x, y) == TAddD(F, k-1, x, y)
+        S(x, y) == TSubD(F, k-1, x, y)
         nr == NR(F, k)
     IN  IF Deg(F, k) = 2
         THEN S(M(a[1], a[1]), M(nr, M(a[2], a[2])))
@@ -120,27 +120,45 @@ TNormDown(F, k, a) ==
              IN  A(M(a[1], t0), M(nr, A(M(a[3], t1), M(a[2], t2))))
 
 \* inverse (zero for zero): conjugate / adjugate divided by the norm, recursively
-TInv(F, k, a) ==
+TInvD(F, k, a) ==
     IF k = 0 THEN FpInv(F.p, a)
-    ELSE LET M(x, y) == TMul(F, k-1, x, y)
-             S(x, y) == TSub(F, k-1, x, y)
+    ELSE LET M(x, y) == TMulD(F, k-1, x, y)
+             S(x, y) == TSubD(F, k-1, x, y)
              nr == NR(F, k)
-             ni == TInv(F, k-1, TNormDown(F, k, a))
+             ni == TInvD(F, k-1, TNormDownD(F, k, a))
          IN  IF Deg(F, k) = 2
-             THEN <<M(a[1], ni), M(TNeg(F, k-1, a[2]), ni)>>
+             THEN <<M(a[1], ni), M(TNegD(F, k-1, a[2]), ni)>>
              ELSE LET t0 == S(M(a[1], a[1]), M(nr, M(a[2], a[3])))
                       t1 == S(M(nr, M(a[3], a[3])), M(a[1], a[2]))
                       t2 == S(M(a[2], a[2]), M(a[1], a[3]))
                   IN  <<M(t0, ni), M(t1, ni), M(t2, ni)>>
 
+
+----------------------------------------------------------------------------
+(* The operators used by the rest of the specification.  Their definitions are the pure ones  *)
+(* above (suffix D); spec/java/Tower.java overrides them with the same schoolbook arithmetic   *)
+(* on java.math.BigInteger, because TLC's interpretation overhead (~20 us per base-field       *)
+(* operation) makes nested tower arithmetic two orders of magnitude slower.  The overrides are  *)
+(* accelerators, not oracles: MC_TowerSelfTest checks Op = OpD on every toy tower and on        *)
+(* full-size random operands.                                                                  *)
+TAdd(F, k, a, b)   == TAddD(F, k, a, b)
+TSub(F, k, a, b)   == TSubD(F, k, a, b)
+TNeg(F, k, a)      == TNegD(F, k, a)
+TMul(F, k, a, b)   == TMulD(F, k, a, b)
+TInv(F, k, a)      == TInvD(F, k, a)
+TNormDown(F, k, a) == TNormDownD(F, k, a)
+TSqr(F, k, a)      == TMul(F, k, a, a)
+TDbl(F, k, a)      == TAdd(F, k, a, a)
+
 \* a^e for a number e >= 0: square-and-multiply from the top bit.  Written as a fold (not as a
 \* recursive operator): TLC's evaluation context grows with the recursion depth and lookups
 \* walk it linearly, which makes 400-level recursions quadratic; FoldLeft iterates in Java.
-TPow(F, k, a, e) ==
+TPowD(F, k, a, e) ==
     IF k = 0 THEN FpPow(F.p, a, e)
-    ELSE FoldLeft(LAMBDA acc, i : LET sq == TSqr(F, k, acc)
-                                  IN  IF NBit(e, i) = 1 THEN TMul(F, k, sq, a) ELSE sq,
+    ELSE FoldLeft(LAMBDA acc, i : LET sq == TMulD(F, k, acc, acc)
+                                  IN  IF NBit(e, i) = 1 THEN TMulD(F, k, sq, a) ELSE sq,
                   TOne(F, k), DownTo(NBitLen(e) - 1, 0))
+TPow(F, k, a, e) == TPowD(F, k, a, e)       \* overridden in Java
 
 \* Frobenius: x |-> x^(p^n) (DEFINITION; the implementation uses coefficient tables).
 \* TFrobRaw applies the p-th power n times; since x^(p^deg) = x in a field with p^deg elements
